@@ -218,6 +218,26 @@ class INSMonitors:
             for j in range(n_prop - 1):
                 ref[:, j + 1] = prop.flow.log_prob_ith(xp, j) + log_j
             self.bump("C03.density_cells_reevaluated", N * n_prop)
+            # ---- the public accessor of "proposal j's density": a function handed out while proposal j was the newest must still be proposal j's density
+            # after later proposals were added (held on the monitor, never on the sampler; a restored sampler has a new proposal object)
+            held = getattr(self, "_held_density_fns", None)
+            if held is None or held[0] is not prop:
+                held = self._held_density_fns = (prop, {})
+            sub = np.linspace(0, N - 1, min(N, 64)).astype(int)
+            for j, fn in list(held[1].items()):
+                if j < n_prop - 2:   # at least one proposal was added since the function was handed out
+                    with np.errstate(invalid="ignore"):
+                        v = np.asarray(fn(xp[sub])) + log_j[sub]
+                        r = ref[sub, j + 1]
+                        ok = (np.abs(v - r) <= F32_TOL * (1 + np.abs(r))) | (np.isneginf(v) & np.isneginf(r)) | band[sub]
+                    self.bump("C03.held_density_function_cells", len(sub))
+                    if not np.all(ok):
+                        i0 = int(np.flatnonzero(~ok)[0])
+                        P("density-function-handed-out-for-a-proposal-changed-after-later-proposals-were-added",
+                          dict(proposal=j, newest=n_prop - 2, held_function=float(v[i0]), proposal_density=float(r[i0])))
+            newest = n_prop - 2
+            if newest >= 0 and newest not in held[1]:
+                held[1][newest] = prop.get_proposal_log_prob(newest)
             with np.errstate(invalid="ignore"):
                 both_ninf = np.isneginf(lq) & np.isneginf(ref)
                 diff = np.abs(lq - ref)
